@@ -39,7 +39,8 @@ class InstrMixin:
 
     KNOWN_ERRORS = {'io.EOF': 'eof', 'io.ErrUnexpectedEOF': 'unexpectedeof', 'io.ErrShortWrite': 'shortwrite',
                     'github.com/itchio/wharf/werrors.ErrCancelled': 'cancelled', 'io.ErrShortBuffer': 'shortbuffer',
-                    'context.Canceled': 'ctxcanceled'}
+                    'context.Canceled': 'ctxcanceled', 'github.com/itchio/wharf/pwr/patcher.ErrStop': 'patcherstop',
+                    'github.com/itchio/wharf/wire.ErrFormat': 'wireformat'}
 
     def global_ref(self, name):
         return T.V('global|' + name)
